@@ -516,7 +516,7 @@ def _draw_spec(draw, state, kinds, counter):
         strs = _by_type(res, ['string'])
         need(ints or strs)
         pstrs = [x for x in strs if _plain(x)]
-        if len(pstrs) >= 2 and draw(st.integers(0, 2)) == 0:
+        if len(pstrs) >= 2 and draw(st.integers(0, 1)) == 0:
             # several text fields retyped at once; text that is not a number is cleared (so every row still conforms)
             two = draw(st.lists(st.sampled_from(pstrs), min_size=2, max_size=2, unique=True))
             return {'k': k, 'field': '|'.join(two), 'regex': True, 'options': {'type': 'integer'}, 'on_error': 'clear', 'res': sel}
